@@ -1934,37 +1934,79 @@ var lastUnitMode int
 var lastUnitHostile []string
 
 // genStructUnit: one unit for a single-unit parser target; PPS and slice are written against the context sets.
-func genStructUnit(r *hx.Rng, target string) []byte {
+// unitBody: the syntax function of a single-unit parser target (ids / reference sets drawn from r).
+func unitBody(r *hx.Rng, target string) func(f *fw) {
 	ctx := structContext()
-	toolsOn := r.Intn(10) < 7
-	mode := pickMode(r, false)
-	lastUnitMode = mode
-	var b []byte
-	var f *fw
 	switch target {
 	case "avc.ParseSPSNALUnit":
-		b, f = writeUnit(r, mode, toolsOn, 8192, func(f *fw) { synAvcSPS(f, uint64(r0(f, 0, 0, 1, 31))) })
+		return func(f *fw) { synAvcSPS(f, uint64(r0(f, 0, 0, 1, 31))) }
 	case "avc.ParsePPSNALUnit":
 		id, _ := ctx.pickID(r, "avcsps")
-		b, f = writeUnit(r, mode, toolsOn, 8192, func(f *fw) { synAvcPPS(f, uint64(r0(f, 0, 0, 1, 255)), uint64(id), ctx.avcSPS[id]) })
+		return func(f *fw) { synAvcPPS(f, uint64(r0(f, 0, 0, 1, 255)), uint64(id), ctx.avcSPS[id]) }
 	case "avc.ParseSliceHeader":
 		id, _ := ctx.pickID(r, "avcpps")
 		p := ctx.avcPPS[id]
-		b, f = writeUnit(r, mode, toolsOn, 8192, func(f *fw) { synAvcSlice(f, uint64(id), p, ctx.avcSPS[p.spsID]) })
+		return func(f *fw) { synAvcSlice(f, uint64(id), p, ctx.avcSPS[p.spsID]) }
 	case "hevc.ParseSPSNALUnit":
-		b, f = writeUnit(r, mode, toolsOn, 8192, func(f *fw) { synHevcSPS(f, uint64(r0(f, 0, 0, 1, 15))) })
+		return func(f *fw) { synHevcSPS(f, uint64(r0(f, 0, 0, 1, 15))) }
 	case "hevc.ParsePPSNALUnit":
 		id, _ := ctx.pickID(r, "hevcsps")
-		b, f = writeUnit(r, mode, toolsOn, 8192, func(f *fw) { synHevcPPS(f, uint64(r0(f, 0, 0, 1, 63)), uint64(id)) })
+		return func(f *fw) { synHevcPPS(f, uint64(r0(f, 0, 0, 1, 63)), uint64(id)) }
 	case "hevc.ParseSliceHeader":
 		id, _ := ctx.pickID(r, "hevcpps")
 		p := ctx.hevcPPS[id]
-		b, f = writeUnit(r, mode, toolsOn, 8192, func(f *fw) { synHevcSlice(f, uint64(id), p, ctx.hevcSPS[p.spsID]) })
-	default:
+		return func(f *fw) { synHevcSlice(f, uint64(id), p, ctx.hevcSPS[p.spsID]) }
+	}
+	return nil
+}
+
+func genStructUnit(r *hx.Rng, target string) []byte {
+	toolsOn := r.Intn(10) < 7
+	mode := pickMode(r, false)
+	lastUnitMode = mode
+	body := unitBody(r, target)
+	if body == nil {
 		return genUnit(r, target)
 	}
+	b, f := writeUnit(r, mode, toolsOn, 8192, body)
 	lastUnitHostile = f.hostile
 	return b
+}
+
+// guardSweep: a SYSTEMATIC pass over the guards of a single-unit parser.  For `variants` random layouts of
+// the unit, one unit per ue(v) field with a small legal maximum (<= 4096: the counts and ranges a parser
+// has to check), written with that field at max+1 and, where it is a count, followed by that many
+// elements (honest loop cap 700).  A parser that lost or loosened one guard returns a value where the
+// model returns an error.
+var guardSweepTargets = []string{"avc.ParseSPSNALUnit", "avc.ParsePPSNALUnit", "avc.ParseSliceHeader",
+	"hevc.ParseSPSNALUnit", "hevc.ParsePPSNALUnit", "hevc.ParseSliceHeader"}
+
+func guardSweep(r *hx.Rng, target string, variants int) [][]byte {
+	var out [][]byte
+	for v := 0; v < variants; v++ {
+		body := unitBody(r, target)
+		if body == nil {
+			return nil
+		}
+		seed, hseed := r.U64(), r.U64()
+		toolsOn := v%2 == 0
+		mk := func() *fw {
+			return &fw{r: hx.NewRng(seed), hr: hx.NewRng(hseed), at: map[int]bool{}, toolsOn: toolsOn, maxBits: 16384, guardAt: -1}
+		}
+		capLimit = 700
+		d := mk()
+		body(d)
+		for i, m := range d.maxes {
+			if m > 0 && m <= 4096 {
+				f := mk()
+				f.guardAt = i
+				body(f)
+				out = append(out, f.w.bytes(true))
+			}
+		}
+	}
+	capLimit = 40
+	return out
 }
 
 // r0: an id drawn from the unit's own stream (identical in the dry run and the real run)
